@@ -214,7 +214,7 @@ def availLoop (s : St) : List Conn → St × LoopRes
     | (s1, .ok true) =>
       if c.2 < s1.n then
         availLoop { (emit s1 [.call c.2 (s1.svc c.2).inc c]) with inflight := s1.inflight ++ [c], queue := q } q
-      else (setFault { s1 with queue := q } .badToken, .fault)
+      else (setFault { s1 with queue := c :: q } .badToken, .fault)
 
 /-- dropping `(conn, guard)`: `Counter::dec` (`fetch_sub(1) - 1 == limit` underflows at raw 0) -/
 def release (s : St) : List Conn → St
